@@ -1086,6 +1086,62 @@ inline long sweep_total()
   return (long) t.singles.size() + t.pair_cases;
 }
 
+// The fault points reached AFTER the first fault of `cfg` has fired, on the path the
+// library takes then (found by running that configuration once in a helper process).
+inline bool discover_later_points(const RunConfig &cfg, const FaultSpec &f1, const std::string &root, std::vector<FaultPoint> &later)
+{
+  int p[2];
+  if (pipe(p) != 0) return false;
+  std::string droot = root + "/pair-discovery";
+  mkdir(droot.c_str(), 0755);
+  fflush(nullptr);
+  pid_t pid = fork();
+  if (pid == 0) {
+    close(p[0]);
+    int out = fcntl(p[1], F_DUPFD_CLOEXEC, 950);
+    RunConfig c1 = cfg;
+    c1.do_history = false;
+    Obs o = run(c1, droot);
+    std::string line;
+    bool after = false;
+    for (auto &fp : fault_points(o.trace)) {
+      if (after) line += std::to_string(fp.side) + " " + std::to_string(fp.index) + " " + std::to_string(fp.fn) + " " + std::to_string((long long) fp.rec.a1) + "\n";
+      if (fp.side == f1.side && fp.index == f1.index) after = true;
+    }
+    hz::write_all(out, line.data(), line.size());
+    _exit(0);
+  }
+  close(p[1]);
+  std::string all;
+  char buf[16384];
+  ssize_t n;
+  while ((n = read(p[0], buf, sizeof(buf))) > 0) all.append(buf, (size_t) n);
+  close(p[0]);
+  int st;
+  waitpid(pid, &st, 0);
+  fw::rm_rf(droot);
+  size_t pos = 0;
+  while (pos < all.size()) {
+    size_t e = all.find('\n', pos);
+    if (e == std::string::npos) break;
+    int side, idx, fn;
+    long long a1;
+    if (sscanf(all.c_str() + pos, "%d %d %d %lld", &side, &idx, &fn, &a1) == 4) {
+      FaultPoint fp;
+      memset(&fp, 0, sizeof(fp));
+      fp.side = side;
+      fp.index = idx;
+      fp.fn = fn;
+      fp.rec.side = (uint8_t) side;
+      fp.rec.fn = (uint8_t) fn;
+      fp.rec.a1 = a1;
+      later.push_back(fp);
+    }
+    pos = e + 1;
+  }
+  return true;
+}
+
 // Decodes a sweep index into a run configuration. For pair cases the first
 // fault is run alone to find the fault points on the *faulted* path, then the
 // j-th point after it gets the second fault. Returns false if the index is
@@ -1136,57 +1192,8 @@ inline bool decode_sweep(long sweep, fw::Tape &t, RunConfig &cfg, const std::str
   FaultSpec f1 = make_fault(tb.points[(size_t) s][(size_t) k], (int) t.pick(2));
   cfg.faults.push_back(f1);
   kind = "fault-pair";
-  // discover the path taken under the first fault (in a helper process)
-  int p[2];
-  if (pipe(p) != 0) return false;
-  std::string droot = root + "/pair-discovery";
-  mkdir(droot.c_str(), 0755);
-  fflush(nullptr);
-  pid_t pid = fork();
-  if (pid == 0) {
-    close(p[0]);
-    int out = fcntl(p[1], F_DUPFD_CLOEXEC, 950);
-    RunConfig c1 = cfg;
-    c1.do_history = false;
-    Obs o = run(c1, droot);
-    std::string line;
-    bool after = false;
-    for (auto &fp : fault_points(o.trace)) {
-      if (after) line += std::to_string(fp.side) + " " + std::to_string(fp.index) + " " + std::to_string(fp.fn) + " " + std::to_string((long long) fp.rec.a1) + "\n";
-      if (fp.side == f1.side && fp.index == f1.index) after = true;
-    }
-    hz::write_all(out, line.data(), line.size());
-    _exit(0);
-  }
-  close(p[1]);
-  std::string all;
-  char buf[16384];
-  ssize_t n;
-  while ((n = read(p[0], buf, sizeof(buf))) > 0) all.append(buf, (size_t) n);
-  close(p[0]);
-  int st;
-  waitpid(pid, &st, 0);
-  fw::rm_rf(droot);
   std::vector<FaultPoint> later;
-  size_t pos = 0;
-  while (pos < all.size()) {
-    size_t e = all.find('\n', pos);
-    if (e == std::string::npos) break;
-    int side, idx, fn;
-    long long a1;
-    if (sscanf(all.c_str() + pos, "%d %d %d %lld", &side, &idx, &fn, &a1) == 4) {
-      FaultPoint fp;
-      memset(&fp, 0, sizeof(fp));
-      fp.side = side;
-      fp.index = idx;
-      fp.fn = fn;
-      fp.rec.side = (uint8_t) side;
-      fp.rec.fn = (uint8_t) fn;
-      fp.rec.a1 = a1;
-      later.push_back(fp);
-    }
-    pos = e + 1;
-  }
+  if (!discover_later_points(cfg, f1, root, later)) return false;
   if (j >= (long) later.size()) return false;
   cfg.faults.push_back(make_fault(later[(size_t) j], (int) t.pick(2)));
   return true;
@@ -1206,9 +1213,24 @@ inline void decode_random(fw::Tape &t, RunConfig &cfg, std::string &kind)
     auto ch = fault_choices(fp.fn, fp.rec);
     cfg.faults.push_back(make_fault(fp, (int) t.pick((uint32_t) ch.size())));
   }
+  // Half of the pairs: the second failure strikes in the clean-up that follows the first one - one of the next few
+  // calls on the path the library takes once the first fault has fired (the baseline does not have that path).
+  bool follow_up = false;
+  if (nf == 2 && t.coin() && !fw::case_dir().empty()) {
+    FaultSpec f1 = cfg.faults[0];
+    cfg.faults.resize(1);
+    std::vector<FaultPoint> later;
+    RunConfig probe = cfg;
+    if (discover_later_points(probe, f1, fw::case_dir(), later) && !later.empty()) {
+      const FaultPoint &fp = later[t.pick((uint32_t) std::min<size_t>(later.size(), 8))];
+      auto ch = fault_choices(fp.fn, fp.rec);
+      cfg.faults.push_back(make_fault(fp, (int) t.pick((uint32_t) ch.size())));
+      follow_up = true;
+    } else nf = 1;
+  }
   static const int limits[] = { 64, 64, 48, 256 };
   cfg.nofile_limit = limits[t.pick(4)];
-  kind = nf == 0 ? "fault-free" : nf == 1 ? "single-fault" : "fault-pair";
+  kind = nf == 0 ? "fault-free" : nf == 1 ? "single-fault" : follow_up ? "fault-pair:second-in-the-clean-up" : "fault-pair";
   maybe_touch_sigchld(t, cfg.parent_signals, cfg.faults, cfg.scenario);
   address_fork_by_ordinal(cfg.parent_signals, cfg.faults);
 }
